@@ -1,10 +1,14 @@
 #!/bin/bash
-# MANIFEST.setup_cmd: make hypothesis importable for /venv/bin/python, offline.
+# MANIFEST.setup_cmd: make hypothesis (random tiers) and atheris (coverage-guided tier) importable for
+# /venv/bin/python, offline, from the wheelhouse; both go to /verif/.deps unless already importable.
 cd "$(dirname "$0")" || exit 1
 PY=/venv/bin/python
-if $PY -c "import hypothesis" >/dev/null 2>&1; then
-  echo "hypothesis already importable"
-else
-  /venv/bin/pip install --no-index --find-links /opt/veriftools/wheels --target "$PWD/.deps" hypothesis || exit 1
-fi
-PYTHONPATH="/repo/src:$PWD/.deps:$PWD" $PY -c "import hypothesis, superrec2, harness.runner; print('setup ok: hypothesis', hypothesis.__version__)"
+export PYTHONPATH="/repo/src:$PWD/.deps:$PWD"
+for pkg in hypothesis atheris; do
+  if $PY -c "import $pkg" >/dev/null 2>&1; then
+    echo "$pkg already importable"
+  else
+    /venv/bin/pip install --no-index --find-links /opt/veriftools/wheels --target "$PWD/.deps" $pkg || exit 1
+  fi
+done
+$PY -c "import hypothesis, atheris, superrec2, harness.runner; print('setup ok: hypothesis', hypothesis.__version__)"
